@@ -168,6 +168,16 @@ def _run_mode(ck, wd, exe, mode, args, rnd, corrupt_results):
     return res
 
 
+def _cleanup_tlc_artefacts():
+    # TLC writes <Module>_TTrace_* next to the specification when a trace is rejected on an invariant
+    for fn in os.listdir(SPEC):
+        if "_TTrace_" in fn:
+            try:
+                os.remove(os.path.join(SPEC, fn))
+            except OSError:
+                pass
+
+
 def run(tier, seed):
     ck = vc.Check("C17", tier, seed)
     quick = tier == "quick"
@@ -228,6 +238,7 @@ def run(tier, seed):
     ck.assumptions = ["TLC 2.x; CommunityModules Json/IOUtils", "harness/drv_text.cpp encodes strings as ASCII codes and reads objects through public const queries only",
                       "number values are compared on a 10^-6 grid (exactly for dyadic doubles and ints)",
                       "distribution class values / probabilities are compared on the 10^-6 grid of the description language (slack 2 units)"]
+    _cleanup_tlc_artefacts()
     return ck.finish()
 
 
